@@ -967,10 +967,8 @@ func r17d(c *core.Ctx) {
 		for _, call := range core.CallsNamed(hc, "crypto/tls.Server") {
 			c.Check(core.Expr(call.Common().Args[1]) == "s.tlsConfig", "listener-uses-own-config", call.Pos(), hc, "DoT connections are wrapped with the listener's tls.Config", core.Expr(call.Common().Args[1]))
 			var hs ssa.CallInstruction
-			for _, h := range core.Calls(hc) {
-				if strings.HasSuffix(core.CallName(h), "tls.Conn).HandshakeContext") {
-					hs = h
-				}
+			for _, h := range handshakeCallsIn(hc) {
+				hs = h
 			}
 			if hs == nil {
 				c.Bad("listener-handshake", call.Pos(), hc, "the DoT listener performs the handshake before reading", "no HandshakeContext")
